@@ -60,6 +60,8 @@ structure BridgeCase where
   lim : Limiter
   src : List ReadEv
   tgt : List ReadEv
+  sw : List WriteEv := []
+  tw : List WriteEv := []
 
 def parseBridge : List String → Option BridgeCase
   | "lim" :: l :: "src" :: n :: ts => do
@@ -69,8 +71,18 @@ def parseBridge : List String → Option BridgeCase
     match ts with
     | "tgt" :: m :: ts => do
       let m ← m.toNat?
-      let (tgt, _) ← parseReads true m ts
-      pure ⟨lim, src, tgt⟩
+      let (tgt, ts) ← parseReads true m ts
+      match ts with
+      | "sw" :: k :: ts => do
+        let k ← k.toNat?
+        let (sw, ts) ← parseWrites k ts
+        match ts with
+        | "tw" :: j :: ts => do
+          let j ← j.toNat?
+          let (tw, _) ← parseWrites j ts
+          pure ⟨lim, src, tgt, sw, tw⟩
+        | _ => pure ⟨lim, src, tgt, sw, []⟩
+      | _ => pure ⟨lim, src, tgt, [], []⟩
     | _ => none
   | _ => none
 
@@ -113,7 +125,7 @@ def runHolds (caseToks obsToks : List String) : String :=
     | _, _ => "false"
   | "bridge" :: rest =>
     match parseBridge rest, parseBridgeObs obsToks with
-    | some c, some o => boolStr (holdsBridge c.src c.tgt o)
+    | some c, some o => boolStr (holdsBridge c.src c.tgt o && holdsNoSpontaneousClose c.src c.tgt c.sw c.tw o)
     | _, _ => "false"
   | _ => "bad-case"
 
